@@ -74,3 +74,47 @@ func JSONKey(v interface{}) []byte {
 	b, _ := json.Marshal(v)
 	return b
 }
+
+// SkipIfReplayOther skips a hand-rolled (non-Prop) test in replay mode when
+// the replay file belongs to another part.
+func SkipIfReplayOther(t *testing.T, part string) {
+	f := os.Getenv("VERIF_REPLAY")
+	if f == "" {
+		return
+	}
+	var doc struct {
+		Part string `json:"part"`
+	}
+	b, err := os.ReadFile(f)
+	if err != nil || json.Unmarshal(b, &doc) != nil || doc.Part != part {
+		t.Skipf("replay file is for another part")
+	}
+}
+
+// ReplayInto runs exec on the case of the replay file when in replay mode for
+// this part and reports true if it did (hand-rolled enumerations use it).
+func ReplayInto[C any](t *testing.T, st *Stats, part string, exec func(C, *Stats) *Fail) bool {
+	f := os.Getenv("VERIF_REPLAY")
+	if f == "" {
+		return false
+	}
+	var doc struct {
+		Part string          `json:"part"`
+		Case json.RawMessage `json:"case"`
+	}
+	b, err := os.ReadFile(f)
+	if err != nil || json.Unmarshal(b, &doc) != nil || doc.Part != part {
+		t.Skipf("replay file is for another part")
+		return true
+	}
+	var c C
+	if err := json.Unmarshal(doc.Case, &c); err != nil {
+		t.Fatalf("bad replay case: %v", err)
+	}
+	if fail := exec(c, st); fail != nil {
+		st.Report(fail, c)
+		t.Fatalf("REPLAY FAILED %s", fail.Error())
+	}
+	fmt.Println("REPLAY PASSED")
+	return true
+}
